@@ -314,6 +314,8 @@ def _outer(db, chk, m, cls):
                 want_l = [T.col(("aggr", i + 1), src) for i in range(len(want))]
                 chk.ob(rule, f"[mem={mem}] per-kernel column {dst!r} = the aggregator's {src!r}, unchanged", None if T.has_opaque(AK.col(dst)) else sorted(lv, key=repr) == sorted(want_l, key=repr), where,
                        found=[T.show(x)[:80] for x in lv], accepted=[T.show(x) for x in want_l], why="a cast of the table to integer dtypes truncates the mean; any wrapper changes the reported statistic")
+        else:
+            chk.ob(rule, f"[mem={mem}] the per-kernel table returned is a frame the evaluator can read", None, where, found=type(ret).__name__)
         # type table aggregation and percentage
         if isinstance(ret, PyTuple) and isinstance(ret.items[0], Frame):
             KTD = ret.items[0]
@@ -328,6 +330,9 @@ def _outer(db, chk, m, cls):
             if got[0] == "round":
                 got = got[1]
             check_term(chk, rule, f"[mem={mem}] percentage = sum / total * 100", where, got, [base])
+        else:
+            chk.ob(rule, f"[mem={mem}] the kernel-type table returned is a frame the evaluator can read (per-combination time summed over ranks)", None, where,
+                   found=type(ret.items[0]).__name__ if isinstance(ret, PyTuple) and ret.items else type(ret).__name__, accepted="(kernel_type_df, all_kernel_df)")
     # two ranks: every rank contributes its own sweep and its own per-kernel tables (nothing is done once after the loop with the last rank's rows)
     TR0, TR1 = ("param", "TR", T.P("RANK0")), ("param", "TR", T.P("RANK1"))
     calls2 = {"type_time": [], "aggr": []}
